@@ -27,13 +27,19 @@ def write_module(root, k, edges, extra_methods=2, cross_params=False):
         os.makedirs(d, exist_ok=True)
         headers = []
         cx = []
+        rb = [f"class RB{i} : public R{i} {{", "PUBLISHED:", f"  RB{i}();", f"  enum Mode{i} {{ ma{i}, mb{i} = 3 }};",
+              f"  class In{i} {{", "  PUBLISHED:", f"    In{i}();", "    int inner_val() const;", "  };",
+              f"  int rb_id() const;", "};"] if cross_params else []
         h = [f"#ifndef {n.upper()}_ROOT_H", f"#define {n.upper()}_ROOT_H", '#include "vfpub.h"',
              f"class R{i} {{", "PUBLISHED:", f"  R{i}();", f"  virtual ~R{i}();", f"  int base_id_{i}() const;",
-             f"  virtual int vid() const;", "};", "#endif"]
+             f"  virtual int vid() const;", "};"] + rb + ["#endif"]
         open(os.path.join(d, f"{n}_root.h"), "w").write("\n".join(h) + "\n")
         headers.append(f"{n}_root.h")
         cx += [f'#include "{n}_root.h"', f"R{i}::R{i}() {{}}", f"R{i}::~R{i}() {{}}",
                f"int R{i}::base_id_{i}() const {{ return {100 + i}; }}", f"int R{i}::vid() const {{ return {100 + i}; }}"]
+        if cross_params:
+            cx += [f"RB{i}::RB{i}() {{}}", f"RB{i}::In{i}::In{i}() {{}}", f"int RB{i}::In{i}::inner_val() const {{ return 7; }}",
+                   f"int RB{i}::rb_id() const {{ return {200 + i}; }}"]
         classes = [f"R{i}"]
         derived = []
         for (a, j), kind in sorted(edges.items()):
@@ -43,7 +49,7 @@ def write_module(root, k, edges, extra_methods=2, cross_params=False):
             g = f"{n.upper()}_D{j}_H"
             if kind == "base":
                 xp = [f"  int use_base(const R{j} &x, R{j} *p) const;", f"  enum E{i}_{j} {{ ea{i}_{j}, eb{i}_{j} = 5 }};",
-                      f"  int m{i}_{j};"] if cross_params else []
+                      f"  int m{i}_{j};", f"  int use_rb(const RB{j} *q, RB{j}::In{j} *in, RB{j}::Mode{j} m) const;"] if cross_params else []
                 h = [f"#ifndef {g}", f"#define {g}", '#include "vfpub.h"', f'#include "lib{j}_root.h"',
                      f"class D{i}_{j} : public R{j} {{", "PUBLISHED:", f"  D{i}_{j}();", f"  int own_id() const;",
                      f"  virtual int vid() const;"] + xp + ["};"] + \
@@ -53,7 +59,8 @@ def write_module(root, k, edges, extra_methods=2, cross_params=False):
                        f"int D{i}_{j}::own_id() const {{ return {1000 + 10 * i + j}; }}",
                        f"int D{i}_{j}::vid() const {{ return {1000 + 10 * i + j}; }}"]
                 if cross_params:
-                    cx += [f"int D{i}_{j}::use_base(const R{j} &x, R{j} *p) const {{ return x.vid() + (p ? 1 : 0); }}",
+                    cx += [f"int D{i}_{j}::use_rb(const RB{j} *q, RB{j}::In{j} *in, RB{j}::Mode{j} m) const {{ return (q ? 1 : 0) + (in ? 2 : 0) + (int)m; }}",
+                           f"int D{i}_{j}::use_base(const R{j} &x, R{j} *p) const {{ return x.vid() + (p ? 1 : 0); }}",
                            f"int free{i}_{j}(const R{j} *x, D{i}_{j} &d) {{ return d.vid() + (x ? 1 : 0); }}"]
                 classes.append(f"D{i}_{j}")
                 derived.append((f"D{i}_{j}", f"R{j}", j))
